@@ -140,3 +140,19 @@ pub fn search(_v: &serde_json::Value) -> i32 {
     println!("no failing input among {n} mnemonic/operand forms (base forms: exact fields; pseudo forms: same effect as the official expansion on an 8x8 operand grid)");
     0
 }
+
+/// witnesses of the carve-outs written into the decode contract (KNOWN_FINDINGS.txt `finding:` lines):
+/// exit 1 while the defect is still present
+pub fn finding(which: &str) -> i32 {
+    match which {
+        "sgez" => match parse1("sgez t0, L") {
+            Ok(n) if matches!(n, ParserNode::Branch(_)) => { println!("`sgez t0, L` is accepted and built as `{}`", describe(&n)); 1 }
+            other => { println!("`sgez t0, L` now gives {:?}", other.map(|n| describe(&n))); 0 }
+        },
+        "auipc" => match (parse1("auipc t0, 5"), parse1("auipc t0, t1, 5")) {
+            (Err(_), Ok(n)) => { println!("`auipc t0, 5` is rejected while `auipc t0, t1, 5` is accepted as `{}`", describe(&n)); 1 }
+            (a, b) => { println!("auipc: {:?} / {:?}", a.map(|n| describe(&n)), b.map(|n| describe(&n))); 0 }
+        },
+        _ => 2,
+    }
+}
